@@ -118,6 +118,8 @@ def check_class(kinds, res):
         fails.append({"sig": f"C19|{kind}|{kinds}|{o!r}", "what": f"{kind}: dataset class with members {kinds} under {o!r}", "detail": d, "case": ("class", list(kinds))})
 
     cls, members = build_class(kinds)
+    # what the plain members were when the class was defined (the class holds the very same objects)
+    constants = {k: copy.deepcopy(m) for k, m in members.items() if not isinstance(m, Evaluatable)}
     dicts = class_dicts(kinds)
     insts = []
     for o in dicts:
@@ -146,7 +148,7 @@ def check_class(kinds, res):
                 except Exception as e:  # noqa
                     fail("member-validate-failed", repr(e), o)
             else:
-                want = m
+                want = constants[k]
             if freeze(attr) != freeze(want):
                 fail("attribute-differs-from-member-evaluation", f"{k}: {attr!r} vs {want!r}", o)
         ks = observe(None, lambda: cls.keys(copy.deepcopy(o)))
